@@ -123,7 +123,9 @@ func (v *validator) v03() {
 		if d.Type != w.typ {
 			v.iss.add("V03", "sector %d: descriptor type %d, want %d (%s)", sector, d.Type, w.typ, w.name)
 		}
-		if (d.Type == 1 || d.Type == 2) && d.Version != 1 {
+		if (d.Type == 1 || d.Type == 2 || d.Type == 255) && d.Version != 1 {
+			// ECMA-119 8.1.3 / 8.3.3 / 8.4.3 / 8.5.3: the version of these descriptors is 1 (readers that
+			// validate the set terminator, e.g. libarchive, otherwise do not recognise the volume at all)
 			v.iss.add("V03", "sector %d: type %d descriptor version %d, want 1", sector, d.Type, d.Version)
 		}
 		if i == 1 && d.Type == 2 && !isJolietEscape(d.Escape) {
